@@ -10,18 +10,22 @@
 use super::*;
 use std::time::Duration;
 
+// Tool note (Kani 0.68, measured): with zero-initialised `static mut` scalars in this module, writes to them showed
+// up in std's `RawVecInner::new_in` constant `ZERO_CAP` (a fresh `Vec::new()` came back with a non-zero capacity and
+// the vectored wrappers then failed pointer checks inside `Vec::push`). Giving every scalar static a distinct
+// non-zero initialiser makes the effect disappear; `begin()` assigns every one of them before use anyway.
 pub(crate) const EE: u8 = 0xEE; // untouched buffer byte (stream bytes are 1..=MAXTOTAL, never 0xEE)
 
 pub(crate) static mut NONBLOCK: bool = false; // the descriptor's O_NONBLOCK bit
-pub(crate) static mut FLAG_WRITES: usize = 0;
-pub(crate) static mut LIMIT: u64 = 1;
-pub(crate) static mut CLOCK: u64 = 0;
-pub(crate) static mut WAITS: usize = 0;
+pub(crate) static mut LIMIT: u64 = 0x7101;
+pub(crate) static mut CLOCK: u64 = 0x7102;
+pub(crate) static mut WAITS: usize = 0x7103;
+pub(crate) static mut MAX_WAITS: usize = 0x7104; // bound on wait rounds where a loop iteration makes no kernel call (connect)
 pub(crate) static mut WAIT_FAILS: bool = false; // whether a wait reported an error
-pub(crate) static mut CALLS: usize = 0; // inner (kernel) calls made
-pub(crate) static mut MAX_CALLS: usize = 4;
-pub(crate) static mut MOVED: usize = 0; // bytes the kernel has moved during this hooked call
-pub(crate) static mut LAST_FAIL_ERRNO: c_int = 0; // errno of the most recent failing kernel call
+pub(crate) static mut CALLS: usize = 0x7105; // inner (kernel) calls made
+pub(crate) static mut MAX_CALLS: usize = 0x7106;
+pub(crate) static mut MOVED: usize = 0x7107; // bytes the kernel has moved during this hooked call
+pub(crate) static mut LAST_FAIL_ERRNO: c_int = 0x7108; // errno of the most recent failing kernel call
 pub(crate) static mut KERNEL_FAILED: bool = false; // some kernel call answered -1
 pub(crate) static mut LAST_WAS_HARD: bool = false;
 pub(crate) static mut SAW_BLOCKING_INNER: bool = false; // an inner call ran while O_NONBLOCK was clear
@@ -29,13 +33,13 @@ pub(crate) static mut SAW_EAGAIN: bool = false;
 pub(crate) static mut SAW_EOF: bool = false;
 pub(crate) static mut CALL_AFTER_EAGAIN: bool = false; // a kernel call made after an earlier one answered EAGAIN
 
-pub(crate) fn set_flag_stub(_fd: c_int, on: bool) -> bool { unsafe { NONBLOCK = on; FLAG_WRITES += 1; } true }
+pub(crate) fn set_flag_stub(_fd: c_int, on: bool) -> bool { unsafe { NONBLOCK = on; } true }
 pub(crate) fn is_non_blocking_stub(_fd: c_int) -> bool { unsafe { NONBLOCK } }
 pub(crate) fn is_socket_stub(_fd: c_int) -> bool { true }
 pub(crate) fn limit_stub(_fd: c_int) -> u64 { unsafe { LIMIT } }
 pub(crate) fn now_stub() -> u64 { unsafe { let n: u64 = kani::any(); kani::assume(n >= CLOCK); CLOCK = n; n } }
 pub(crate) fn wait_stub(_fd: c_int, _t: Option<Duration>) -> std::io::Result<()> {
-    unsafe { WAITS += 1; }
+    unsafe { WAITS += 1; kani::assume(WAITS <= MAX_WAITS); }
     if kani::any() { Ok(()) } else { unsafe { WAIT_FAILS = true; } Err(std::io::ErrorKind::Other.into()) }
 }
 
@@ -48,8 +52,8 @@ pub(crate) fn begin(max_calls: usize) -> bool {
     let limit: u64 = kani::any();
     kani::assume(limit > 0);
     unsafe {
-        NONBLOCK = caller_nonblocking; FLAG_WRITES = 0; LIMIT = limit; CLOCK = 0; WAITS = 0; WAIT_FAILS = false;
-        CALLS = 0; MAX_CALLS = max_calls; MOVED = 0; LAST_FAIL_ERRNO = 0; KERNEL_FAILED = false; LAST_WAS_HARD = false;
+        NONBLOCK = caller_nonblocking; LIMIT = limit; CLOCK = 0; WAITS = 0; WAIT_FAILS = false;
+        CALLS = 0; MAX_CALLS = max_calls; MAX_WAITS = usize::MAX; MOVED = 0; LAST_FAIL_ERRNO = 0; KERNEL_FAILED = false; LAST_WAS_HARD = false;
         SAW_BLOCKING_INNER = false; SAW_EAGAIN = false; SAW_EOF = false; CALL_AFTER_EAGAIN = false;
     }
     put_errno(0);
@@ -114,9 +118,11 @@ pub(crate) fn check_common(r: isize, caller_nonblocking: bool, total_requested: 
 // ---------------------------------------------------------------------------------------------- vectored calls
 pub(crate) const NIOV: usize = 2;
 pub(crate) const VLEN: usize = 2; // bytes per caller iovec (bound)
-pub(crate) static mut BUFS: [[u8; VLEN]; NIOV] = [[EE; VLEN]; NIOV];
-pub(crate) static mut LENS: [usize; NIOV] = [0; NIOV];
-pub(crate) static mut CALLER_IOV: [libc::iovec; NIOV] = [libc::iovec { iov_base: std::ptr::null_mut(), iov_len: 0 }; NIOV];
+pub(crate) static mut BUF0: [u8; VLEN] = [EE; VLEN];
+pub(crate) static mut BUF1: [u8; VLEN] = [0xED; VLEN];
+pub(crate) unsafe fn buf(j: usize) -> &'static mut [u8; VLEN] { if j == 0 { &mut *(&raw mut BUF0) } else { &mut *(&raw mut BUF1) } }
+pub(crate) static mut LENS: [usize; NIOV] = [0x7201, 0x7202];
+pub(crate) static mut CALLER_IOV: [libc::iovec; NIOV] = [libc::iovec { iov_base: 0x7203 as *mut std::ffi::c_void, iov_len: 0x7204 }, libc::iovec { iov_base: 0x7205 as *mut std::ffi::c_void, iov_len: 0x7206 }];
 
 pub(crate) fn vtotal() -> usize { unsafe { LENS[0] + LENS[1] } }
 
@@ -130,8 +136,8 @@ pub(crate) fn begin_vectored(is_read: bool) -> *const libc::iovec {
         let mut j = 0;
         while j < NIOV {
             let mut b = 0;
-            while b < VLEN { BUFS[j][b] = if is_read { EE } else { sb((if j == 0 { 0 } else { l0 }) + b) }; b += 1; }
-            CALLER_IOV[j] = libc::iovec { iov_base: BUFS[j].as_mut_ptr().cast(), iov_len: LENS[j] };
+            while b < VLEN { buf(j)[b] = if is_read { EE } else { sb((if j == 0 { 0 } else { l0 }) + b) }; b += 1; }
+            CALLER_IOV[j] = libc::iovec { iov_base: buf(j).as_mut_ptr().cast(), iov_len: LENS[j] };
             j += 1;
         }
         CALLER_IOV.as_ptr()
@@ -140,8 +146,8 @@ pub(crate) fn begin_vectored(is_read: bool) -> *const libc::iovec {
 
 /// absolute stream position of address `a` if [a, a+l) lies inside one caller iovec, else None
 unsafe fn abs_pos(a: usize, l: usize) -> Option<usize> {
-    let b0 = BUFS[0].as_ptr() as usize;
-    let b1 = BUFS[1].as_ptr() as usize;
+    let b0 = buf(0).as_ptr() as usize;
+    let b1 = buf(1).as_ptr() as usize;
     if a >= b0 && a + l <= b0 + LENS[0] { return Some(a - b0); }
     if a >= b1 && a + l <= b1 + LENS[1] { return Some(LENS[0] + (a - b1)); }
     None
@@ -205,10 +211,10 @@ pub(crate) fn check_read_buffers() {
             let mut b = 0;
             while b < VLEN {
                 if b < LENS[j] {
-                    if p < MOVED { kani::assert(BUFS[j][b] == sb(p), "C16.stream_bytes_in_order_in_caller_buffers"); }
-                    else { kani::assert(BUFS[j][b] == EE, "C16.nothing_written_beyond_the_bytes_moved"); }
+                    if p < MOVED { kani::assert(buf(j)[b] == sb(p), "C16.stream_bytes_in_order_in_caller_buffers"); }
+                    else { kani::assert(buf(j)[b] == EE, "C16.nothing_written_beyond_the_bytes_moved"); }
                     p += 1;
-                } else { kani::assert(BUFS[j][b] == EE, "C16.nothing_written_outside_the_callers_iovecs"); }
+                } else { kani::assert(buf(j)[b] == EE, "C16.nothing_written_outside_the_callers_iovecs"); }
                 b += 1;
             }
             j += 1;
